@@ -1,5 +1,5 @@
 (** C10/Proofs.v — lemmas behind C10/Props.v. *)
-From EV Require Import Base.StoreSM C33.Model C33.Spec C33.Lemmas C33.Proofs C08.Module C08.PropertyModel C08.SimpleModels.
+From EV Require Import Base.StoreSM C33.Model C33.Spec C33.Lemmas C33.Proofs C08.Module C08.PropertyModel C08.SimpleModels C10.TypeModel.
 Local Open Scope N_scope.
 
 Lemma remove_no_mention : forall (c : cfg) (ops : list (hop mfacts)) (f : N),
@@ -49,6 +49,65 @@ Proof.
   intros s f. unfold p_remove. destruct (ngetN f (px_infile s)) as [l|] eqn:E; [|exact E].
   destruct (fold_left _ l (px_props s, px_owners s)) as [props omap]. cbn [px_infile].
   rewrite nget_del, N.eqb_refl. reflexivity.
+Qed.
+
+(** ---- LuaTypeIndex: for every type the removed file declared, no surviving location or super clause carries it ---- *)
+Notation nget_set := (aget_aset N.eqb_spec).
+
+Definition clean_at (f id : N) (s : tidx) : Prop :=
+  (forall l, ngetN id (t_supers s) = Some l -> forall x, In x l -> fst x <> f) /\
+  (forall l, ngetN id (t_decls s) = Some l -> forall x, In x l -> fst x <> f).
+
+Lemma keep_not_clean : forall f l x, In x (keep_not f l) -> fst x <> f.
+Proof.
+  intros f l x H. apply filter_In in H. destruct H as [_ H]. destruct (N.eqb_spec (fst x) f); [discriminate | assumption].
+Qed.
+
+Lemma rm_id_establish : forall f s id, clean_at f id (t_rm_id f s id).
+Proof.
+  intros f s id. unfold t_rm_id, clean_at.
+  destruct (ngetN id (t_decls s)) as [locs|] eqn:Ed; destruct (ngetN id (t_supers s)) as [sup|] eqn:Es;
+    try destruct (is_nil (keep_not f locs)); try destruct (is_nil (keep_not f sup)); cbn [t_supers t_decls]; split; intros l Hl x Hx;
+    rewrite ?nget_set, ?nget_del, ?N.eqb_refl in Hl; try discriminate;
+    try (inversion Hl; subst l; eapply keep_not_clean; exact Hx); congruence.
+Qed.
+
+Lemma rm_id_preserve : forall f s id id', clean_at f id s -> clean_at f id (t_rm_id f s id').
+Proof.
+  intros f s id id' H. destruct (N.eq_dec id id') as [->|Hne]; [apply rm_id_establish|].
+  destruct H as [H1 H2]. unfold t_rm_id, clean_at.
+  destruct (ngetN id' (t_decls s)) as [locs|] eqn:Ed; destruct (ngetN id' (t_supers s)) as [sup|] eqn:Es;
+    try destruct (is_nil (keep_not f locs)); try destruct (is_nil (keep_not f sup)); cbn [t_supers t_decls]; split; intros l Hl;
+    rewrite ?nget_set, ?nget_del in Hl; destruct (N.eqb_spec id id'); try contradiction; eauto.
+Qed.
+
+Lemma rm_fold_clean : forall f ids s id, In id ids \/ clean_at f id s -> clean_at f id (fold_left (t_rm_id f) ids s).
+Proof.
+  induction ids as [|i ids IH]; intros s id H; cbn [fold_left].
+  - destruct H as [[]|H]; exact H.
+  - apply IH. destruct H as [[->|H]|H].
+    + right. apply rm_id_establish.
+    + left. exact H.
+    + right. apply rm_id_preserve. exact H.
+Qed.
+
+Lemma type_remove_clean : forall s f ids id,
+  ngetN f (t_ftypes s) = Some ids -> In id ids -> clean_at f id (t_remove f s).
+Proof. intros s f ids id H Hin. unfold t_remove. rewrite H. apply rm_fold_clean. left. exact Hin. Qed.
+
+Lemma type_remove_file_maps : forall s f,
+  ngetN f (t_ns (t_remove f s)) = None /\ ngetN f (t_using (t_remove f s)) = None /\ ngetN f (t_ftypes (t_remove f s)) = None.
+Proof.
+  intros s f. unfold t_remove.
+  assert (H : forall ids s0, t_ns (fold_left (t_rm_id f) ids s0) = t_ns s0 /\ t_using (fold_left (t_rm_id f) ids s0) = t_using s0
+                             /\ t_ftypes (fold_left (t_rm_id f) ids s0) = t_ftypes s0).
+  { induction ids as [|i ids IH]; intro s0; cbn [fold_left]; [auto|].
+    destruct (IH (t_rm_id f s0 i)) as [A [B C]]. rewrite A, B, C. unfold t_rm_id.
+    destruct (ngetN i (t_decls s0)) as [locs|]; [destruct (is_nil (keep_not f locs))|]; cbn; auto. }
+  destruct (ngetN f (t_ftypes s)) as [ids|].
+  - destruct (H ids (mkTidx (ndelN f (t_ns s)) (ndelN f (t_using s)) (ndelN f (t_ftypes s)) (t_decls s) (t_supers s) (t_names s))) as [A [B C]].
+    rewrite A, B, C. cbn [t_ns t_using t_ftypes]. rewrite !nget_del, N.eqb_refl. auto.
+  - cbn [t_ns t_using t_ftypes]. rewrite !nget_del, N.eqb_refl. auto.
 Qed.
 
 Lemma remove_example :
